@@ -11,12 +11,10 @@ import (
 	"go/token"
 	"go/types"
 	"os"
-	"reflect"
 	"strings"
 	"unsafe"
 
 	"golang.org/x/tools/go/ssa"
-	"golang.org/x/tools/internal/typeparams"
 )
 
 // If the target program panics, the interpreter panics with this type.
@@ -103,6 +101,9 @@ func fitsInt(x int64, sizes types.Sizes) bool {
 //
 // Callers that need a value directly usable as an int should combine this with fitsInt().
 func asInt64(x value) int64 {
+	if s, ok := x.(sym); ok {
+		x = s.w.concretize(s)
+	}
 	switch x := x.(type) {
 	case int:
 		return int64(x)
@@ -133,6 +134,9 @@ func asInt64(x value) int64 {
 // asUint64 converts x, which must be an unsigned integer, to a uint64
 // suitable for use as a bitwise shift count.
 func asUint64(x value) uint64 {
+	if s, ok := x.(sym); ok {
+		x = s.w.concretize(s)
+	}
 	switch x := x.(type) {
 	case uint:
 		return uint64(x)
@@ -256,12 +260,11 @@ func zero(t types.Type) value {
 		}
 		return s
 	case *types.Chan:
-		return chan value(nil)
+		return (*chanObj)(nil)
 	case *types.Map:
-		if usesBuiltinMap(t.Key()) {
-			return map[value]value(nil)
-		}
-		return (*hashmap)(nil)
+		return (*omap)(nil)
+	case *types.TypeParam:
+		panic(pathEnd{oEngine, "zero of type parameter " + t.String()})
 	case *types.Signature:
 		return (*ssa.Function)(nil)
 	}
@@ -312,17 +315,9 @@ func slice(x, lo, hi, max value) value {
 
 // lookup returns x[idx] where x is a map.
 func lookup(instr *ssa.Lookup, x, idx value) value {
-	switch x := x.(type) { // map or string
-	case map[value]value, *hashmap:
-		var v value
-		var ok bool
-		switch x := x.(type) {
-		case map[value]value:
-			v, ok = x[idx]
-		case *hashmap:
-			v = x.lookup(idx.(hashable))
-			ok = v != nil
-		}
+	switch x := x.(type) { // map
+	case *omap:
+		v, ok := x.lookup(idx)
 		if !ok {
 			v = zero(instr.X.Type().Underlying().(*types.Map).Elem())
 		}
@@ -331,13 +326,19 @@ func lookup(instr *ssa.Lookup, x, idx value) value {
 		}
 		return v
 	}
-	panic(fmt.Sprintf("unexpected x type in Lookup: %T", x))
+	panic(pathEnd{oEngine, fmt.Sprintf("unexpected x type in Lookup: %T", x)})
 }
 
 // binop implements all arithmetic and logical binary operators for
 // numeric datatypes and strings.  Both operands must have identical
 // dynamic type.
 func binop(op token.Token, t types.Type, x, y value) value {
+	if _, ok := x.(sym); ok {
+		return symBinop(op, x, y)
+	}
+	if _, ok := y.(sym); ok {
+		return symBinop(op, x, y)
+	}
 	switch op {
 	case token.ADD:
 		switch x.(type) {
@@ -816,16 +817,18 @@ func eqnil(t types.Type, x, y value) bool {
 		// Since these types don't support comparison,
 		// one of the operands must be a literal nil.
 		switch x := x.(type) {
-		case *hashmap:
-			return (x != nil) == (y.(*hashmap) != nil)
-		case map[value]value:
-			return (x != nil) == (y.(map[value]value) != nil)
+		case *omap:
+			return (x != nil) == (y.(*omap) != nil)
+		case *nativeFn:
+			return false
 		case *ssa.Function:
 			switch y := y.(type) {
 			case *ssa.Function:
 				return (x != nil) == (y != nil)
 			case *closure:
-				return true
+				return x != nil
+			case *nativeFn:
+				return x != nil
 			}
 		case *closure:
 			return (x != nil) == (y.(*ssa.Function) != nil)
@@ -838,10 +841,17 @@ func eqnil(t types.Type, x, y value) bool {
 	return equals(t, x, y)
 }
 
-func unop(instr *ssa.UnOp, x value) value {
+func unop(fr *frame, instr *ssa.UnOp, x value) value {
+	if s, ok := x.(sym); ok {
+		return symUnop(instr.Op, s)
+	}
 	switch instr.Op {
 	case token.ARROW: // receive
-		v, ok := <-x.(chan value)
+		c := x.(*chanObj)
+		if c == nil {
+			fr.w.park("receive from nil channel")
+		}
+		_, v, ok := fr.w.chanSelect([]selCase{{ch: c}}, false)
 		if !ok {
 			v = zero(instr.X.Type().Underlying().(*types.Chan).Elem())
 		}
@@ -883,7 +893,7 @@ func unop(instr *ssa.UnOp, x value) value {
 			return -x
 		}
 	case token.MUL:
-		return load(typeparams.MustDeref(instr.X.Type()), x.(*value))
+		return load(mustDeref(instr.X.Type()), x.(*value))
 	case token.NOT:
 		return !x.(bool)
 	case token.XOR:
@@ -980,17 +990,24 @@ func callBuiltin(caller *frame, fn *ssa.Builtin, args []value) value {
 		return copy(args[0].([]value), src.([]value))
 
 	case "close": // close(chan T)
-		close(args[0].(chan value))
+		caller.w.chanClose(args[0].(*chanObj))
 		return nil
 
 	case "delete": // delete(map[K]value, K)
-		switch m := args[0].(type) {
-		case map[value]value:
-			delete(m, args[1])
-		case *hashmap:
-			m.delete(args[1].(hashable))
-		default:
-			panic(fmt.Sprintf("illegal map type: %T", m))
+		args[0].(*omap).delete(args[1])
+		return nil
+
+	case "clear":
+		switch x := args[0].(type) {
+		case *omap:
+			x.clear()
+		case []value:
+			if len(x) > 0 {
+				et := fn.Type().(*types.Signature).Params().At(0).Type().Underlying().(*types.Slice).Elem()
+				for i := range x {
+					x[i] = zero(et)
+				}
+			}
 		}
 		return nil
 
@@ -1019,14 +1036,15 @@ func callBuiltin(caller *frame, fn *ssa.Builtin, args []value) value {
 			return len((*x).(array))
 		case []value:
 			return len(x)
-		case map[value]value:
-			return len(x)
-		case *hashmap:
+		case *omap:
 			return x.len()
-		case chan value:
-			return len(x)
+		case *chanObj:
+			if x == nil {
+				return 0
+			}
+			return len(x.buf)
 		default:
-			panic(fmt.Sprintf("len: illegal operand: %T", x))
+			panic(pathEnd{oEngine, fmt.Sprintf("len: illegal operand: %T", x)})
 		}
 
 	case "cap":
@@ -1037,10 +1055,13 @@ func callBuiltin(caller *frame, fn *ssa.Builtin, args []value) value {
 			return cap((*x).(array))
 		case []value:
 			return cap(x)
-		case chan value:
-			return cap(x)
+		case *chanObj:
+			if x == nil {
+				return 0
+			}
+			return x.cap
 		default:
-			panic(fmt.Sprintf("cap: illegal operand: %T", x))
+			panic(pathEnd{oEngine, fmt.Sprintf("cap: illegal operand: %T", x)})
 		}
 
 	case "min":
@@ -1105,10 +1126,8 @@ func callBuiltin(caller *frame, fn *ssa.Builtin, args []value) value {
 
 func rangeIter(x value) iter {
 	switch x := x.(type) {
-	case map[value]value:
-		return &mapIter{iter: reflect.ValueOf(x).MapRange()}
-	case *hashmap:
-		return &hashmapIter{iter: reflect.ValueOf(x.entries()).MapRange()}
+	case *omap:
+		return &omapIter{m: x}
 	case string:
 		return &stringIter{Reader: strings.NewReader(x)}
 	}
@@ -1158,6 +1177,14 @@ func widen(x value) value {
 func conv(t_dst, t_src types.Type, x value) value {
 	ut_src := t_src.Underlying()
 	ut_dst := t_dst.Underlying()
+	if s, ok := x.(sym); ok {
+		if bd, ok := ut_dst.(*types.Basic); ok {
+			if r := symConv(s, bd.Kind()); r != nil {
+				return r
+			}
+		}
+		x = concrete(x)
+	}
 
 	// Destination type is not an "untyped" type.
 	if b, ok := ut_dst.(*types.Basic); ok && b.Info()&types.IsUntyped != 0 {
